@@ -20,6 +20,7 @@ type Tbl struct {
 	Hm   [][]int `json:"hm"` // anchors spanning two columns
 	Vm   [][]int `json:"vm"` // anchors spanning two rows
 	Mp   [][]int `json:"mp"` // anchors with two paragraphs
+	Rc   [][]int `json:"rc"` // anchors whose first paragraph has mixed inline content (two tokens)
 }
 
 // Block is one body block.
@@ -46,6 +47,7 @@ type GridCell struct {
 	Cs   int    `json:"cs"`
 	Rs   int    `json:"rs"`
 	Np   int    `json:"np"`
+	Rich bool   `json:"rich"`
 }
 
 const (
@@ -90,6 +92,7 @@ func Grid(t Tbl) [][]GridCell {
 				if in(t.Mp, r, c) {
 					cell.Np = 2
 				}
+				cell.Rich = in(t.Rc, r, c)
 			}
 			g[r-1][c-1] = cell
 		}
@@ -119,6 +122,7 @@ type Origin struct {
 	Wrap  string // wrapper of the child (paragraph tokens), "cell" for table tokens
 	Atom  string // t | sym
 	Multi bool   // table token in a two-paragraph cell
+	Rich  bool   // table token in a cell paragraph with mixed inline content
 	Merge string // table token: "", "h", "v" (cell is a merge anchor)
 }
 
